@@ -19,7 +19,7 @@ Model of the RUNNING STATISTICS behind `stats` / `stats … by` and of their MER
                                            sum/min/max (1023-1035);  GroupByBuckets.MergeBuckets (1049-1069)
 
 The code is mirrored AS IT IS, quirks included.  Five defects found with this slice were repaired (patches
-build/patches/c04-1..4 committed, c04-7 pending); the model follows the FIXED code and keeps the former behaviour under
+build/patches/c04-1..4, c04-7 committed; c04-11, c04-13 pending); the model follows the FIXED code and keeps the former behaviour under
 explicitly named `…Old` definitions (with counterexample theorems in Props/C04.lean):
   * c04-1 `SegStats.Merge` now ORs `IsNumeric` (`SegStats.mergeOld` / `mergeOOld`: the receiver's flag was kept, so a
     text-only first part made GetSegSum / GetSegAvg refuse the merged statistics);
@@ -30,8 +30,12 @@ explicitly named `…Old` definitions (with counterexample theorems in Props/C04
     which also reads "nan", "inf", "1_000", "0x1p-2" as numbers).
   * c04-7 the group-by bucket divides avg by the number of records that had a NUMERIC value (`RB.nc`; `resultRBOld`:
     by the number of records of the bucket).
+  * c04-11 count(x) of a group is a Count cell that counts the records having a value for x (`RB.cx`; `resultRBCountOld`:
+    the number of records of the bucket);
+  * c04-13 a string that FastParseFloat reads as a number is that number for the Sum / Min / Max cells of the bucket
+    (`Val.toCVWith (parseFast rnd)`; `foldRBStrOld`: every string was text — sum and avg ignored it, min / max compared it
+    as text — while the statistics without a by clause counted it as a number).
 Still as found (known findings):
-  * the group-by bucket answers count(x) with the number of RECORDS of the bucket;
   * the integer sum is an int64 and wraps; it becomes a float64 at the first float and stays one; getRange wraps too.
 
 Numbers.  `Num.int` is an int64 (every addition is wrapped explicitly with `wrapS64`).  float64 values are EXACT
@@ -495,6 +499,7 @@ structure RB where
   min : CV
   max : CV
   nc : Nat         -- numCount of the Sum cell (patch c04-7): records whose value was numeric
+  cx : Nat         -- the Count cell of count(x) (patch c04-11): records that have a value for x
 deriving DecidableEq, Repr
 
 /-- ProcessReduce for Sum: the first call turns an INVALID cell into BACKFILL (runningstats.go:432-434); then
@@ -523,39 +528,61 @@ def sumStep (rnd : Rat → Rat) (s e : CV) : CV :=
 def mmStep (rnd : Rat → Rat) (isMin : Bool) (s e : CV) : CV := (reduceMM rnd isMin s e).getD s
 def mmStepOld (rnd : Rat → Rat) (isMin : Bool) (s e : CV) : CV := (reduceMMOld rnd isMin s e).getD s
 
-def Val.toCV : Val → CV
+/-- the value the Sum / Min / Max cells of the bucket are fed with (AddMeasureResults, patch c04-13): a string that the
+rule `parse` reads as a number is that float64, like in the statistics without a by clause (AddSegStatsStr) -/
+def Val.toCVWith (parse : Str → Option Rat) : Val → CV
   | .absent => .backfill
   | .int i => .int i
   | .flt q => .flt q
-  | .str s => .str s
+  | .str s => match parse s with
+    | some q => .flt q
+    | none => .str s
 
-def newRB : RB := ⟨0, .invalid, .invalid, .invalid, 0⟩
+/-- BEFORE patch c04-13 no string was a number for the group-by bucket -/
+def noParse : Str → Option Rat := fun _ => none
 
-/-- AddMeasureResultsToKey of one record -/
-def stepRB (rnd : Rat → Rat) (o : Option RB) (v : Val) : Option RB :=
+def Val.toCV : Val → CV := Val.toCVWith noParse
+
+def Val.isAbsent : Val → Bool
+  | .absent => true
+  | _ => false
+
+def newRB : RB := ⟨0, .invalid, .invalid, .invalid, 0, 0⟩
+
+/-- AddMeasureResultsToKey of one record, `parse` = the bucket's "is this string a number" -/
+def stepRBWith (parse : Str → Option Rat) (rnd : Rat → Rat) (o : Option RB) (v : Val) : Option RB :=
   let b := o.getD newRB
-  let e := v.toCV
-  some ⟨b.n + 1, sumStep rnd b.sum e, mmStep rnd true b.min e, mmStep rnd false b.max e, b.nc + (if e.isNumeric then 1 else 0)⟩
+  let e := v.toCVWith parse
+  some ⟨b.n + 1, sumStep rnd b.sum e, mmStep rnd true b.min e, mmStep rnd false b.max e, b.nc + (if e.isNumeric then 1 else 0),
+    b.cx + (if v.isAbsent then 0 else 1)⟩
 
-def foldRB (rnd : Rat → Rat) (vs : List Val) : Option RB := vs.foldl (stepRB rnd) none
+def foldRBWith (parse : Str → Option Rat) (rnd : Rat → Rat) (vs : List Val) : Option RB := vs.foldl (stepRBWith parse rnd) none
 
-/-- the bucket with `Reduce` as it was BEFORE the fix c04-3 -/
+/-- the bucket as FIXED (patch c04-13): the string rule is FastParseFloat, the rule of the statistics without by -/
+def stepRB (rnd : Rat → Rat) : Option RB → Val → Option RB := stepRBWith (parseFast rnd) rnd
+def foldRB (rnd : Rat → Rat) (vs : List Val) : Option RB := foldRBWith (parseFast rnd) rnd vs
+
+/-- the bucket BEFORE patch c04-13: every string is text (sum ignores it, min / max compare it as text) -/
+def foldRBStrOld (rnd : Rat → Rat) (vs : List Val) : Option RB := foldRBWith noParse rnd vs
+
+/-- the bucket with `Reduce` as it was BEFORE the fix c04-3 (and before c04-13: strings are text) -/
 def stepRBOld (rnd : Rat → Rat) (o : Option RB) (v : Val) : Option RB :=
   let b := o.getD newRB
   let e := v.toCV
-  some ⟨b.n + 1, sumStep rnd b.sum e, mmStepOld rnd true b.min e, mmStepOld rnd false b.max e, b.nc + (if e.isNumeric then 1 else 0)⟩
+  some ⟨b.n + 1, sumStep rnd b.sum e, mmStepOld rnd true b.min e, mmStepOld rnd false b.max e, b.nc + (if e.isNumeric then 1 else 0),
+    b.cx + (if v.isAbsent then 0 else 1)⟩
 def foldRBOld (rnd : Rat → Rat) (vs : List Val) : Option RB := vs.foldl (stepRBOld rnd) none
 
 /-- GroupByBuckets.MergeBuckets for one key / MergeRunningBuckets -/
 def mergeRB (rnd : Rat → Rat) : Option RB → Option RB → Option RB
   | none, b => b
   | some a, none => some a
-  | some a, some b => some ⟨a.n + b.n, sumStep rnd a.sum b.sum, mmStep rnd true a.min b.min, mmStep rnd false a.max b.max, a.nc + b.nc⟩
+  | some a, some b => some ⟨a.n + b.n, sumStep rnd a.sum b.sum, mmStep rnd true a.min b.min, mmStep rnd false a.max b.max, a.nc + b.nc, a.cx + b.cx⟩
 
 def mergeRBOld (rnd : Rat → Rat) : Option RB → Option RB → Option RB
   | none, b => b
   | some a, none => some a
-  | some a, some b => some ⟨a.n + b.n, sumStep rnd a.sum b.sum, mmStepOld rnd true a.min b.min, mmStepOld rnd false a.max b.max, a.nc + b.nc⟩
+  | some a, some b => some ⟨a.n + b.n, sumStep rnd a.sum b.sum, mmStepOld rnd true a.min b.min, mmStepOld rnd false a.max b.max, a.nc + b.nc, a.cx + b.cx⟩
 
 /-- CValueEnclosure.GetFloatValue -/
 def CV.float? (rnd : Rat → Rat) : CV → Option Rat
@@ -573,8 +600,9 @@ structure RBResult where
   range : CV
 deriving DecidableEq, Repr
 
-/-- updateEValFromRunningBuckets (as FIXED, patch c04-7): avg = sum / numCount of the Sum cell (bucket.count only when the
-cell carries no count), count(x) = bucket.count (still as found), range = float(max) − float(min) -/
+/-- updateEValFromRunningBuckets (as FIXED, patches c04-7 and c04-11): avg = sum / numCount of the Sum cell (bucket.count
+only when the cell carries no count), count(x) = the Count cell = the records that have a value for x,
+range = float(max) − float(min) -/
 def resultRB (rnd : Rat → Rat) (b : RB) : RBResult :=
   { n := b.n
     sum := b.sum
@@ -585,7 +613,7 @@ def resultRB (rnd : Rat → Rat) (b : RB) : RBResult :=
       | some s =>
         let d := if b.nc = 0 then b.n else b.nc
         if d = 0 then .flt 0 else .flt (rnd (s / rnd (d : Rat)))
-    count := b.n
+    count := b.cx
     range := match b.min.float? rnd, b.max.float? rnd with
       | some mn, some mx => .flt (rnd (mx - mn))
       | _, _ => .invalid }
@@ -596,5 +624,8 @@ def resultRBOld (rnd : Rat → Rat) (b : RB) : RBResult :=
     avg := match b.sum.float? rnd with
       | none => .invalid
       | some s => if b.n = 0 then .flt 0 else .flt (rnd (s / rnd (b.n : Rat))) }
+
+/-- BEFORE the fix c04-11: count(x) = bucket.count, the number of RECORDS of the group (there was no Count cell) -/
+def resultRBCountOld (rnd : Rat → Rat) (b : RB) : RBResult := { resultRB rnd b with count := b.n }
 
 end SigModel.Stats
